@@ -101,6 +101,9 @@ rt("unary_not",
    "do f(n) start\n" + BASE % "true" + "    return not f(n add 1)\nend\n", "shout(f(0))\n")
 rt("unary_minus",
    "do f(n) start\n" + BASE % "1" + "    return minus f(n add 1)\nend\n", "shout(f(0))\n")
+rt("deep_expr",
+   "do f(n) start\n" + BASE % "0" + "    return " + "(1 add (2 times " * 12 + "f(n add 1)" + "))" * 12 + "\nend\n",
+   "shout(f(0))\n")
 rt("interp",
    "do f(n) start\n" + BASE % "\"x\"" + "    make s get f(n add 1)\n    make t get \"v{n}:{s}\"\n    return \"{t}\"\nend\n",
    "shout(f(0))\n", covers=["eval_string_expr"])
